@@ -38,10 +38,14 @@ class Cfg:
                 if blk.cleanup or not t or t.k != "switch":
                     continue
                 for tgt in set(self.body.succs(blk.i)):
-                    if any(a[0] == "variant" and a[2] == () for a in self.edge_atoms(blk.i, tgt)):
+                    atoms = self.edge_atoms(blk.i, tgt)
+                    if any(a[0] == "variant" and a[2] == () for a in atoms):
                         # only if tgt is not also the target of a real arm
                         if tgt == t.j["o"] and tgt not in [b for _v, b in t.j["ts"]]:
                             dead.add((blk.i, tgt))
+                    # a branch on a literal constant (`if false { .. }`): the contradicting edge is never taken
+                    if any(a[0] == "bool" and a[1][0] == "const" and a[1][1] == "bool" and bool(a[1][3]) != bool(a[2]) for a in atoms):
+                        dead.add((blk.i, tgt))
             self._dead = dead
         return self._dead
 
